@@ -1007,6 +1007,13 @@ func (p Patch) replace(doc *container, op Operation, options *ApplyOptions) erro
 
 		switch val.which {
 		case eAry:
+			if val.ary == nil {
+				// The value is null: tryAry accepts it and leaves a nil
+				// array behind, on which every later operation would
+				// dereference nil. Keep a container that still encodes as
+				// null.
+				val.ary = &partialArray{self: val}
+			}
 			*doc = val.ary
 		case eDoc:
 			*doc = val.doc
